@@ -275,7 +275,7 @@ def enum_cases(chunk):
 
 
 SUBS = [
-    Sub("missing_random", random_case, check_missing, quick=4000, thorough=80000),
+    Sub("missing_random", random_case, check_missing, quick=8000, thorough=80000),
     Sub("missing_masked_junk", junk_case, check_missing, quick=1200, thorough=20000),
 ]
 ENUMS = [Enum("placements", enum_chunks, enum_cases, check_missing,
